@@ -173,7 +173,7 @@ func (c *c30Child) violPanic(where string, p any, stack []byte) {
 	cr := c30AnalyseCrash(string(stack), fmt.Sprint(p))
 	c.emit(c30Rec{
 		K: "viol", Case: c.gcase, Sig: cr.Sig,
-		What: fmt.Sprintf("%s panicked (recovered): %v at %s", where, p, cr.Top),
+		What:   fmt.Sprintf("%s panicked (recovered): %v at %s", where, p, cr.Top),
 		Detail: map[string]any{"input": c.curM, "call": where, "message": cr.Message, "stack_top": cr.Stack},
 	})
 }
@@ -607,6 +607,9 @@ func (c *c30Child) caseFresh(k int) { //nolint:cyclop,gocognit
 		setup = kit.Pick(r, []int{1, 2, 2, 3, 4, 4, 5, 6})
 	}
 	nmut := kit.Pick(r, []int{0, 1, 1, 1, 2, 2, 3, 4})
+	if kit.Tier() == "thorough" && r.Chance(0.3) {
+		nmut += r.Range(2, 8) // thorough: pile up mutations
+	}
 	v := c.newPeer(c30PCOpt{Sem: sem, Icpt: icpt, SE: func(se *SettingEngine) {
 		if k%7 == 3 {
 			se.SetHandleUndeclaredSSRCWithoutAnswer(true)
